@@ -52,7 +52,7 @@ def uniform_records(rng, D, n, ids="unique", coords=True):
                 vals = ["x"]  # set below
             else:
                 r = rng.random()
-                if r < 0.07 and not (pos == 0 and D["fmt"] == "gff3"):
+                if r < 0.07 and not (pos == 0 and D["fmt"] in ("gff3", "gff3q")):
                     vals = []
                 elif r < 0.25:
                     vals = [R.value(rng, escaped=escaped) for _ in range(2)]
